@@ -10,20 +10,31 @@ What a never-limiting fixed-window level does to a walk up the chain (`fixed_str
   here; otherwise the memo is set and the parent (whatever its type) is incremented;
 * `Allowed`: `quota.Allowed` — no memo ⇒ `false` (refused); otherwise the memo is consumed and the parent is asked;
 * `Dec`: the memo is deleted, then `parent.Dec` (whatever the parent's type).
+
+A fixed-window quota with `group_by_header` keeps one counter object (with its own memo) per value of that header; the
+group is computed from the stream presented to the operation (`calculateContextKey`): the request's header value while
+the request is being processed (limiter, system start flow, refusal / early answer and the response-direction flows run
+for it), the `default` group for a provider response and for the proxy-error report (their streams carry no such
+header).  `getQuota` creates the group's object when it is not there — also in `Dec` — so the walk always goes on to
+the parent.  Here: group 1 = "the header is present", group 0 = default.
 -/
 namespace LunarVerif.C02.Mixed
 open LunarVerif.C02
 
 structure MS where
   s : S
-  memo : Nat → Nat → Bool      -- fixed-window quota, request id ↦ `allowedByReqID` has an entry
+  memo : Nat → Nat → Nat → Bool  -- fixed-window quota, group, request id ↦ `allowedByReqID` has an entry
+  grouped : Nat → Bool           -- the fixed-window quota has `group_by_header`
 
-def MS.init (cfg : Cfg) : MS := ⟨S.init cfg, fun _ _ => false⟩
+def MS.init (cfg : Cfg) (grouped : Nat → Bool := fun _ => false) : MS := ⟨S.init cfg, fun _ _ _ => false, grouped⟩
 
-def setMemo (x : MS) (q r : Nat) (b : Bool) : MS :=
-  { x with memo := fun q' r' => if q' = q ∧ r' = r then b else x.memo q' r' }
+/-- the group of quota `q` for a stream that carries the header (`hd`) or not -/
+def MS.grp (x : MS) (q : Nat) (hd : Bool) : Nat := if x.grouped q && hd then 1 else 0
 
-def inc (cfg : Cfg) : List Nat → MS → Nat → MS
+def setMemo (x : MS) (q g r : Nat) (b : Bool) : MS :=
+  { x with memo := fun q' g' r' => if q' = q ∧ g' = g ∧ r' = r then b else x.memo q' g' r' }
+
+def inc (cfg : Cfg) (hd : Bool) : List Nat → MS → Nat → MS
   | [], x, _ => x
   | q :: rest, x, r =>
     if cfg.isConc q then
@@ -32,72 +43,73 @@ def inc (cfg : Cfg) : List Nat → MS → Nat → MS
         let m : Member := ⟨x.s.now + cfg.exp q, r⟩
         if (x.s.members q).length < cfg.max q then
           let x1 := { x with s := micro cfg x.s (.sadd q m) }
-          let x2 := inc cfg rest x1 r
+          let x2 := inc cfg hd rest x1 r
           { x2 with s := micro cfg x2.s (.setst q r m) }
         else x
-    else if x.memo q r then x
-    else inc cfg rest (setMemo x q r true) r
+    else if x.memo q (x.grp q hd) r then x
+    else inc cfg hd rest (setMemo x q (x.grp q hd) r true) r
 
-def allowed (cfg : Cfg) : List Nat → MS → Nat → MS × Bool
+def allowed (cfg : Cfg) (hd : Bool) : List Nat → MS → Nat → MS × Bool
   | [], x, _ => (x, true)
   | q :: rest, x, r =>
     if cfg.isConc q then
-      let x1 := inc cfg (q :: rest) x r
-      if (x1.s.allowed q r).isSome then allowed cfg rest x1 r else (x1, false)
-    else if x.memo q r then allowed cfg rest (setMemo x q r false) r
+      let x1 := inc cfg hd (q :: rest) x r
+      if (x1.s.allowed q r).isSome then allowed cfg hd rest x1 r else (x1, false)
+    else if x.memo q (x.grp q hd) r then allowed cfg hd rest (setMemo x q (x.grp q hd) r false) r
     else (x, false)
 
-def dec (cfg : Cfg) : List Nat → MS → Nat → MS
+def dec (cfg : Cfg) (hd : Bool) : List Nat → MS → Nat → MS
   | [], x, _ => x
   | q :: rest, x, r =>
     if cfg.isConc q then
       let x1 := match x.s.allowed q r with
         | none => x
         | some m => { x with s := micro cfg x.s (.srem q m) }
-      let x2 := dec cfg rest x1 r
+      let x2 := dec cfg hd rest x1 r
       { x2 with s := micro cfg x2.s (.del q r) }
-    else dec cfg rest (setMemo x q r false) r
+    else dec cfg hd rest (setMemo x q (x.grp q hd) r false) r
 
 def touch (cfg : Cfg) (x : MS) (r q : Nat) : MS := { x with s := micro cfg x.s (.rmSet r q) }
 
-def limiter (cfg : Cfg) (x : MS) (q r : Nat) : MS × Bool :=
+def limiter (cfg : Cfg) (hd : Bool) (x : MS) (q r : Nat) : MS × Bool :=
   let x0 := touch cfg x r q
-  allowed cfg (cfg.chainOf q) (inc cfg (cfg.chainOf q) x0 r) r
+  allowed cfg hd (cfg.chainOf q) (inc cfg hd (cfg.chainOf q) x0 r) r
 
-def userFlow (cfg : Cfg) : List Nat → MS → Nat → MS × Bool
+def userFlow (cfg : Cfg) (hd : Bool) : List Nat → MS → Nat → MS × Bool
   | [], x, _ => (x, true)
   | q :: rest, x, r =>
-    let p := limiter cfg x q r
-    if p.2 then userFlow cfg rest p.1 r else (p.1, false)
+    let p := limiter cfg hd x q r
+    if p.2 then userFlow cfg hd rest p.1 r else (p.1, false)
 
-def sysInc (cfg : Cfg) : List Nat → MS → Nat → MS
+def sysInc (cfg : Cfg) (hd : Bool) : List Nat → MS → Nat → MS
   | [], x, _ => x
-  | q :: rest, x, r => sysInc cfg rest (inc cfg (cfg.chainOf q) (touch cfg x r q) r) r
+  | q :: rest, x, r => sysInc cfg hd rest (inc cfg hd (cfg.chainOf q) (touch cfg x r q) r) r
 
-def decList (cfg : Cfg) : List Nat → MS → Nat → MS
+def decList (cfg : Cfg) (hd : Bool) : List Nat → MS → Nat → MS
   | [], x, _ => x
-  | q :: rest, x, r => decList cfg rest (dec cfg (cfg.chainOf q) x r) r
+  | q :: rest, x, r => decList cfg hd rest (dec cfg hd (cfg.chainOf q) x r) r
 
-def drop (cfg : Cfg) (x : MS) (r : Nat) : MS :=
-  decList cfg (x.s.rm r) { x with s := micro cfg x.s (.rmPop r) } r
+def drop (cfg : Cfg) (hd : Bool) (x : MS) (r : Nat) : MS :=
+  decList cfg hd (x.s.rm r) { x with s := micro cfg x.s (.rmPop r) } r
 
-def sysDec (cfg : Cfg) : List Nat → MS → Nat → MS
+def sysDec (cfg : Cfg) (hd : Bool) : List Nat → MS → Nat → MS
   | [], x, _ => x
-  | q :: rest, x, r => sysDec cfg rest (dec cfg (cfg.chainOf q) (touch cfg x r q) r) r
+  | q :: rest, x, r => sysDec cfg hd rest (dec cfg hd (cfg.chainOf q) (touch cfg x r q) r) r
 
-def endFlows (cfg : Cfg) (x : MS) (r : Nat) (tx : Tx) : MS :=
-  drop cfg (sysDec cfg (cfg.sysDecsFor tx) x r) r
+def endFlows (cfg : Cfg) (hd : Bool) (x : MS) (r : Nat) (tx : Tx) : MS :=
+  drop cfg hd (sysDec cfg hd (cfg.sysDecsFor tx) x r) r
 
 def reqEvent (cfg : Cfg) (x : MS) (r : Nat) (tx : Tx) : MS × Verdict :=
-  let p := userFlow cfg cfg.order (sysInc cfg (cfg.sysStartFor tx) x r) r
-  if !p.2 then (endFlows cfg (drop cfg p.1 r) r tx, .refused)
-  else if cfg.early && tx.post then (endFlows cfg (drop cfg p.1 r) r tx, .early)
+  let hd := tx.hdr
+  let p := userFlow cfg hd cfg.order (sysInc cfg hd (cfg.sysStartFor tx) x r) r
+  if !p.2 then (endFlows cfg hd (drop cfg hd p.1 r) r tx, .refused)
+  else if cfg.early && tx.post then (endFlows cfg hd (drop cfg hd p.1 r) r tx, .early)
   else (p.1, .admitted)
 
 def event (cfg : Cfg) (x : MS) : Event → MS × Verdict
   | .req r tx => reqEvent cfg x r tx
-  | .resp r tx => (endFlows cfg x r tx, .none)
-  | .err r => (drop cfg x r, .none)
+  | .resp r tx => (endFlows cfg false x r tx, .none)   -- the provider's response carries no group header
+  | .err r => (drop cfg false x r, .none)              -- `OnError`: a synthetic response stream without headers
   | .adv d => ({ x with s := advance cfg x.s d }, .none)
 
 /-- What the parser accepts beyond `Cfg.wf`: positive GC interval, every chain free of repetitions, flow order in
